@@ -3,7 +3,7 @@
 use crate::any::{fp_ctrl, Getters};
 use crate::cfg::{Cfg, Kind};
 use crate::ops::{history_text, Bad, Op};
-use crate::run::{Flt, Res, Signal};
+use crate::run::{Flt, Obs, Res, Signal};
 use crate::track::{Props, Tracked, Viol};
 use rubato::verif::State;
 use std::collections::{HashSet, VecDeque};
@@ -29,6 +29,10 @@ pub struct Spec {
     pub signal: Signal,
     /// cap on the number of states per configuration (a cap hit is reported)
     pub max_states: usize,
+    /// record the history of every n-th state (0 = none)
+    pub sample_every: usize,
+    /// operations applied (but not followed) in the states of the last layer
+    pub final_layer: Vec<Op>,
 }
 
 #[derive(Clone, Debug, Default)]
@@ -56,6 +60,7 @@ pub struct Outcome {
     pub found_overflow: u64,
     pub max_depth: usize,
     pub samples: Vec<String>,
+    pub sampled_states: Vec<Vec<Op>>,
 }
 
 fn dedup_f(v: &mut Vec<f64>) {
@@ -227,10 +232,46 @@ fn outcome_hash(op: &Op, res: &Res, g: &Getters) -> u64 {
     h.0
 }
 
+/// The system under exploration: a tracked resampler, or a lock-step twin of two.
+pub trait Sys {
+    fn step(&mut self, op: Op, check: bool) -> (Obs, Vec<Viol>);
+    fn replay(&mut self, history: &[Op]) -> bool;
+    fn state(&self) -> State;
+    fn getters(&self) -> Getters;
+    fn dead(&self) -> bool;
+}
+
+impl<T: Flt> Sys for Tracked<T> {
+    fn step(&mut self, op: Op, check: bool) -> (Obs, Vec<Viol>) {
+        Tracked::step(self, op, check)
+    }
+    fn replay(&mut self, history: &[Op]) -> bool {
+        Tracked::replay(self, history)
+    }
+    fn state(&self) -> State {
+        self.run.state()
+    }
+    fn getters(&self) -> Getters {
+        self.run.r.getters()
+    }
+    fn dead(&self) -> bool {
+        self.run.dead
+    }
+}
+
+pub type Factory<'a> = &'a dyn Fn() -> Result<Box<dyn Sys>, String>;
+
+pub fn explore<T: Flt>(spec: &Spec, journal: Journal) -> Result<Outcome, String> {
+    let f = || -> Result<Box<dyn Sys>, String> {
+        Ok(Box::new(Tracked::<T>::new(&spec.cfg, spec.signal, spec.props)?))
+    };
+    explore_sys(spec, &f, journal)
+}
+
 /// Journal hook: called with the history that is about to be executed (slow mode only).
 pub type Journal<'a> = Option<&'a dyn Fn(&[Op], Op)>;
 
-pub fn explore<T: Flt>(spec: &Spec, journal: Journal) -> Result<Outcome, String> {
+pub fn explore_sys(spec: &Spec, make: Factory, journal: Journal) -> Result<Outcome, String> {
     let mut out = Outcome::default();
     let mut seen: HashSet<u64> = HashSet::new();
     let mut queued: HashSet<u64> = HashSet::new();
@@ -239,7 +280,7 @@ pub fn explore<T: Flt>(spec: &Spec, journal: Journal) -> Result<Outcome, String>
     let cfg = &spec.cfg;
 
     'outer: while let Some((hist, nd)) = frontier.pop_front() {
-        let mut live = Tracked::<T>::new(cfg, spec.signal, spec.props)?;
+        let mut live = make()?;
         if !live.replay(&hist) {
             continue;
         }
@@ -247,22 +288,30 @@ pub fn explore<T: Flt>(spec: &Spec, journal: Journal) -> Result<Outcome, String>
         let horizon = spec.horizon[nd.min(3)];
         let mut steps = 0usize;
         loop {
-            let st = live.run.state();
+            let st = live.state();
             let key = fp_ctrl(&st);
             if !seen.insert(key) {
                 out.closed += 1;
                 break;
             }
             out.states += 1;
+            if spec.sample_every > 0 && (out.states - 1) % spec.sample_every as u64 == 0 {
+                out.sampled_states.push(h.clone());
+            }
             out.max_depth = out.max_depth.max(h.len());
             if out.states as usize >= spec.max_states {
                 out.state_cap_hit = true;
                 break 'outer;
             }
-            if nd < spec.bound {
-                let g = live.run.r.getters();
-                for d in deviations(cfg, spec.alpha, &g, &st) {
-                    let mut side = Tracked::<T>::new(cfg, spec.signal, spec.props)?;
+            if nd < spec.bound || !spec.final_layer.is_empty() {
+                let g = live.getters();
+                let devs = if nd < spec.bound {
+                    deviations(cfg, spec.alpha, &g, &st)
+                } else {
+                    spec.final_layer.clone()
+                };
+                for d in devs {
+                    let mut side = make()?;
                     if !side.replay(&h) {
                         break;
                     }
@@ -273,15 +322,15 @@ pub fn explore<T: Flt>(spec: &Spec, journal: Journal) -> Result<Outcome, String>
                     out.transitions += 1;
                     out.outcomes.insert(outcome_hash(&d, &obs.res, &obs.after));
                     record(&mut out, viols, &h, d);
-                    if side.run.dead {
+                    if side.dead() {
                         out.terminal += 1;
                         continue;
                     }
-                    let k2 = fp_ctrl(&side.run.state());
+                    let k2 = fp_ctrl(&side.state());
                     if k2 != key {
                         out.effective_deviations += 1;
                     }
-                    if !seen.contains(&k2) && queued.insert(k2) {
+                    if nd < spec.bound && !seen.contains(&k2) && queued.insert(k2) {
                         let mut h2 = h.clone();
                         h2.push(d);
                         if out.samples.len() < 3 && h2.len() >= 2 {
@@ -299,7 +348,7 @@ pub fn explore<T: Flt>(spec: &Spec, journal: Journal) -> Result<Outcome, String>
             out.outcomes.insert(outcome_hash(&Op::P, &obs.res, &obs.after));
             record(&mut out, viols, &h, Op::P);
             h.push(Op::P);
-            if live.run.dead || !obs.res.is_ok() {
+            if live.dead() || !obs.res.is_ok() {
                 out.terminal += 1;
                 break;
             }
